@@ -187,7 +187,8 @@ Definition num_precedence (n : number) : N :=
       else PREC_Add
   | NDbl bits => if dbl_negative bits then PREC_Mul else PREC_Atom
   | NCDbl _ _ => PREC_Add
-  | NInf _ | NNaN => PREC_Atom
+  | NInf d => if infty_precedence_by_sign && (d <? 0)%Z then PREC_Mul else PREC_Atom
+  | NNaN => PREC_Atom
   end.
 
 Definition precedence (e : expr) : N :=
